@@ -122,6 +122,11 @@ class Interp:
                         g[nm] = g[st.value.id]
                     elif nm not in g:
                         g[nm] = Opaque(f"module constant {nm}")
+            elif isinstance(st, ast.AnnAssign) and isinstance(st.target, ast.Name) and st.value is not None:
+                try:
+                    g[st.target.id] = libmodel.const_value(ast.literal_eval(st.value))
+                except Exception:
+                    g[st.target.id] = Opaque(f"module constant {st.target.id}")
             elif isinstance(st, ast.Try):
                 s._scan_module(rel, st.body, g)
             elif isinstance(st, ast.If):
@@ -317,7 +322,15 @@ class Interp:
                     (at, e), = a.m.items()
                     if e == 1 and at.tag == "v" and at.name not in b.fv():
                         st.atom_eq[at.name] = b
-                        for k in list(st.env): st.env[k] = subst_val(st.env[k], {at.name: b})
+                        mp = {at.name: b}
+                        for k in list(st.env):
+                            v = st.env[k]
+                            if isinstance(v, ListVal):
+                                v.items = [subst_val(e, mp) for e in v.items]      # in place: identity matters
+                            elif isinstance(v, (DictVal, Obj, LocalArr)):
+                                continue
+                            else:
+                                st.env[k] = subst_val(v, mp)
                         return
 
     # ---- truth
@@ -651,7 +664,9 @@ def _concrete_seq(v):
 
 def _composite_cond(v):
     k = vkey(v)
-    return Cond.get(("tree", k), repr(v))
+    c = Cond.get(("tree", k), repr(v))
+    c.tree = v
+    return c
 
 
 def _restrict_env(st, cond, pol):
